@@ -823,7 +823,9 @@ func execC07(c *hx.Case) (*hx.Result, error) {
 	}
 	if err := db.WaitOnTasks(); err != nil {
 		if s.failedTasks == 0 {
-			return nil, fmt.Errorf("background task failed: %v", err)
+			// a background task failed although no fault was injected: an observed outcome
+			s.tags["background_task_error_without_fault"] = true
+			s.emit("OTaskErr", fmt.Sprintf("background task failed: %v", err))
 		}
 		s.tags["wait_on_tasks_reports_compaction_error"] = true
 	} else if s.failedTasks > 0 {
